@@ -135,7 +135,38 @@ def run(p, led, tier):
                 if isinstance(n, ast.Call) and isinstance(n.func, ast.Name) and n.func.id == "setattr" and len(n.args) >= 2 and isinstance(n.args[1], ast.Constant) and n.args[1].value == tname:
                     n_w += 1
                     led.fail("C01-R4", f"{fi.qual} ▸ setattr {tname}", where(fi, n), "the allow-list is replaced at run time")
-    led.ok("C01-R4", "package ▸ writers of the allow-list tables", "operon_ai/", f"{len(p.all_funcs)} functions scanned; {n_w} writer(s)")
+    # aliases: an attribute or local bound to the table object itself (not a copy) must not be written through either
+    n_alias = 0
+    for fi in p.all_funcs:
+        for n in walk_no_nested(fi.node):
+            if not isinstance(n, (ast.Assign, ast.AnnAssign)) or n.value is None:
+                continue
+            v = n.value
+            if not (isinstance(v, ast.Attribute) and v.attr in TABLES):
+                continue
+            for t in (n.targets if isinstance(n, ast.Assign) else [n.target]):
+                n_alias += 1
+                if isinstance(t, ast.Attribute):
+                    ws = [(g, k, w) for g, k, w in package_attr_writes(p, t.attr, None) if k != "assign"]
+                    what = f"self.{t.attr}"
+                elif isinstance(t, ast.Name):
+                    ws = []
+                    for w in walk_no_nested(fi.node):
+                        if isinstance(w, (ast.Assign, ast.AugAssign)):
+                            for tt in (w.targets if isinstance(w, ast.Assign) else [w.target]):
+                                if isinstance(tt, ast.Subscript) and isinstance(tt.value, ast.Name) and tt.value.id == t.id:
+                                    ws.append((fi, "subscript-store", w))
+                        if isinstance(w, ast.Call) and isinstance(w.func, ast.Attribute) and isinstance(w.func.value, ast.Name) and w.func.value.id == t.id and w.func.attr in ("update", "pop", "clear", "setdefault", "popitem", "__setitem__"):
+                            ws.append((fi, f"mutcall:{w.func.attr}", w))
+                    what = t.id
+                else:
+                    continue
+                for g, k, w in ws:
+                    n_w += 1
+                    led.fail("C01-R4", f"{g.qual} ▸ {k} through alias {what} of {v.attr}", where(g, w),
+                             f"`{what}` is bound to the class-level table {v.attr} itself (`{short(n)}`), and `{short(w, 60)}` writes through it: the allow-list of every evaluator in the process grows at run time",
+                             witness="instance A registers a tool; a fresh instance B without that tool resolves and calls it by name")
+    led.ok("C01-R4", "package ▸ writers of the allow-list tables", "operon_ai/", f"{len(p.all_funcs)} functions scanned; {n_w} writer(s); {n_alias} alias binding(s) of a table followed")
 
     # ---------------- R1 every ast.expr subclass
     bad_acc = acc - ALLOWED_NODES
